@@ -399,7 +399,7 @@ type sectionData struct {
 
 func checkSections(raw json.RawMessage, what string) string {
 	if string(raw) == "null" {
-		return "" // no section list for this half (recorded separately by the caller)
+		return what + " is null, not a list of sections"
 	}
 	var secs []sectionData
 	if err := json.Unmarshal(raw, &secs); err != nil {
